@@ -66,7 +66,7 @@ Proof. vm_compute. repeat split. Qed.
    text, flag string, input and replacement in; with a replacement the grammar accepts, the input with
    every match replaced by the rendering of the replacement's items; with one it rejects, the error as
    soon as there is a match.  No hypothesis about parser, matcher or scan loop. *)
-Theorem C15_ordinary_pattern_replace_end_to_end :
+Theorem C15_ordinary_pattern_replace_end_to_end_partial :
   forall xpath pat fls input repl,
     forallb ordinary pat = true -> pat <> [] -> (N.of_nat (length pat) <= umax)%N ->
     existsb (N.eqb 59) fls = false ->
@@ -90,4 +90,4 @@ Print Assumptions C15_parse_total.
 Print Assumptions C15_no_match_returns_input.
 Print Assumptions C15_replace_valid_partial.
 Print Assumptions C15_replace_invalid_partial.
-Print Assumptions C15_ordinary_pattern_replace_end_to_end.
+Print Assumptions C15_ordinary_pattern_replace_end_to_end_partial.
